@@ -20,6 +20,7 @@
                             '(size_t)__CPROVER_POINTER_OFFSET(g_c0) <= (size_t)__CPROVER_POINTER_OFFSET(it) && (size_t)__CPROVER_POINTER_OFFSET(it) < g_n',
                             '(size_t)__CPROVER_POINTER_OFFSET(it) < (size_t)__CPROVER_POINTER_OFFSET(reader->cursor)'],
              'decreases': '(size_t)__CPROVER_POINTER_OFFSET(it)'}],
+ 'fallback': 'ghost-free',
  'witness': {'unwind': 9},
 } @*/
 #include "c19_harness.h"
